@@ -235,10 +235,23 @@ class World(object):
         synchronisation primitives and manager-list proxies."""
         import copy
         v = copy.copy(self.store)
-        # ordinary (non-shared) mutable attributes are private copies in a forked child
+        # ordinary (non-shared) objects are private copies in a forked child: plain lists, and
+        # threading primitives (only multiprocessing primitives and manager proxies are shared)
+        private_locks = {}
+
+        def priv_lock(lk):
+            if lk.kind != "th":
+                return lk
+            if id(lk) not in private_locks:
+                private_locks[id(lk)] = simsched.SimLock("th")
+            return private_locks[id(lk)]
         for name, val in list(vars(self.store).items()):
-            if isinstance(val, list) and "locked" not in name:
-                setattr(v, name, list(val))
+            if type(val) is list or isinstance(val, simsched.YieldList):
+                setattr(v, name, type(val)(val))
+            elif isinstance(val, simsched.SimLock):
+                setattr(v, name, priv_lock(val))
+            elif isinstance(val, simsched.SimCondition) and val.kind == "th":
+                setattr(v, name, simsched.SimCondition(priv_lock(val.lock), "th"))
         return v
 
     def model(self):
